@@ -6,6 +6,7 @@ from ..tree import *  # noqa
 from ..flow import Index
 from ..tables import *  # noqa
 from .. import boolpred as bp
+from .. import norm
 from .. import fmtstr, builders
 from .c02 import binding_of_pat
 
@@ -151,45 +152,80 @@ def extract_model(ctx, c, f, t0):
     produces = set_of(ctx, "always_produces_bit_vec", t0)
     if consumes is None or produces is None:
         return None
-    # named bool locals
-    byname = {}
-    for i, d in defs.items():
-        if d[0] == "let" and d[2].get("k") == "pbind":
-            byname[d[2]["name"]] = (i, d[1])
-    atoms = {must_b[1]: "must_bv"}
-    for nm, atom, test in (("result_is_1_bit", "one_bit", lambda s_: "get_bv_type" in s_ and "Some(1)" in s_), ("result_is_bit_vec", "nat_bv", lambda s_: "always_produces_bit_vec(expr)" in s_)):
-        if nm not in byname or not test(show(byname[nm][1]["init"])):
-            ctx.violation("R05.1", "serialize_expr:%s" % nm, f["span"], "UNRECOGNISED definition of %s" % nm)
+    # the work list is the vector popped by the loop
+    wb, wms = chain(cnd["init"])
+    todo_id = local_id(wb) if [m[0] for m in wms] == ["pop"] else None
+    if todo_id is None or e_b is None or pc_b is None or must_b is None:
+        ctx.violation("R05.1", "serialize_expr:worklist", loop["sp"], "UNRECOGNISED: the loop does not pop (expr, position, must_be_bit_vec) from a work list")
+        return None
+
+    def is_one_bit_test(n):
+        """`e.get_bv_type(ctx) == Some(1)` / `matches!(e.get_bv_type(ctx), Some(1))` for the popped node e"""
+        def is_gbt(x):
+            x = strip_try(x)
+            return x.get("k") == "mcall" and x["name"] == "get_bv_type" and is_local(x["recv"], e_b[1])
+
+        def is_some1(x):
+            x = peel(x)
+            return x.get("k") == "ctor" and callee(x).endswith("Option::Some") and len(x["args"]) == 1 and peel(x["args"][0]).get("v") == 1
+        if n.get("k") == "binary" and n["op"] == "==":
+            return (is_gbt(n["l"]) and is_some1(n["r"])) or (is_gbt(n["r"]) and is_some1(n["l"]))
+        if n.get("k") == "match" and is_gbt(n["scrut"]) and len(n["arms"]) == 2:
+            a0, a1 = n["arms"]
+            p0 = a0["pat"]
+            return p0.get("k") == "pvariant" and p0["path"].endswith("Option::Some") and len(p0["subs"]) == 1 and p0["subs"][0].get("k") == "plit" and p0["subs"][0].get("v") == 1 \
+                and peel(a0["body"]).get("v") is True and a1["pat"].get("k") == "pwild" and peel(a1["body"]).get("v") is False and "guard" not in a0 and "guard" not in a1
+        return False
+
+    def atom_fn(n):
+        if n.get("k") == "local" and is_local(n, must_b[1]):
+            return "must_bv"
+        if n.get("k") == "call" and callee(n) == S + "always_produces_bit_vec":
+            a = resolve(n["args"][0])
+            if a.get("k") == "index" and is_local(a["i"], e_b[1]):
+                return "nat_bv"
+        if is_one_bit_test(n):
+            return "one_bit"
+        return None
+
+    def is_pc_test(cnd_):
+        c_ = resolve(cnd_)
+        return c_.get("k") == "binary" and c_["op"] in ("==", "!=", ">", "<", ">=", "<=") and (is_local(c_["l"], pc_b[1]) or is_local(c_["r"], pc_b[1]))
+
+    # the coercion flags: the conditions under which the wrapper literals are written
+    sites = fmtstr.macro_sites(c, loop["body"], ("write",))
+    parsed = [(s_, fmtstr.parse_call(s_["snippet"])) for s_ in sites]
+    flags, wraps = {}, {}
+    for nm, opener, closer in (("convert_result_to_bv", "(ite ", " #b1 #b0)"), ("convert_result_to_bool", "(= ", " #b1)")):
+        forms = {}
+        for s_, pc in parsed:
+            if pc and pc[2] in (opener, closer) and not contains(loop_match_of(ix, loop) or {}, s_["node"]):
+                conds = [(c_, pol) for c_, pol in norm.path_conditions(ix, s_["node"], upto=loop) if not is_pc_test(c_)]
+                conds = [(c_, pol) for c_, pol in conds if not (c_.get("k") == "letexpr")]
+                try:
+                    fm = ("const", True)
+                    for c_, pol in conds:
+                        x = bp.extract(c_, {}, defs, None, 0, None, atom_fn)
+                        fm = ("and", fm, x if pol else ("not", x))
+                except bp.Opaque as ex:
+                    ctx.violation("R05.1", "serialize_expr:%s" % nm, s_["node"]["sp"], "UNRECOGNISED (fail closed) condition of the coercion wrapper `%s`: %s" % (pc[2], show(ex.node)))
+                    return None
+                forms.setdefault(pc[2], []).append(fm)
+                wraps.setdefault(nm, []).append(pc[2])
+        if sorted(forms) != sorted([opener, closer]) or any(len(v) != 1 for v in forms.values()):
+            ctx.violation("R05.1", "serialize_expr:%s" % nm, f["span"], "UNRECOGNISED: expected exactly one `%s` and one `%s` wrapper write, found %s" % (opener, closer, {k_: len(v) for k_, v in forms.items()}))
             return None
-        atoms[byname[nm][0]] = atom
-    flags = {}
-    for nm in ("convert_result_to_bv", "convert_result_to_bool"):
-        if nm not in byname:
-            ctx.violation("R05.1", "serialize_expr:%s" % nm, f["span"], "UNRECOGNISED: flag %s not found" % nm)
-            return None
-        try:
-            flags[nm] = bp.extract(byname[nm][1]["init"], {}, defs, None, 0, atoms)
-        except bp.Opaque as ex:
-            ctx.violation("R05.1", "serialize_expr:%s" % nm, byname[nm][1]["sp"], "UNRECOGNISED (fail closed) flag formula: %s" % show(ex.node))
-            return None
-    # the wrappers guarded by the flags
-    wraps = {}
-    for n in ix.nodes:
-        if n.get("k") == "if":
-            cc = peel(n["cond"])
-            if cc.get("k") == "local" and cc["name"] in flags:
-                for s_ in fmtstr.macro_sites(c, n["then"], ("write",)):
-                    pc = fmtstr.parse_call(s_["snippet"])
-                    wraps.setdefault(cc["name"], []).append(pc[2] if pc else None)
+        fo, fc = forms[opener][0], forms[closer][0]
+        same = all(bp.ev(fo, dict(zip(("one_bit", "must_bv", "nat_bv"), v))) == bp.ev(fc, dict(zip(("one_bit", "must_bv", "nat_bv"), v))) for v in itertools.product([False, True], repeat=3))
+        ctx.inst("R05.1", "serialize_expr:%s:open-close-agree" % nm, same, f["span"], "the opening `%s` and the closing `%s` of a coercion are written under different conditions" % (opener, closer))
+        flags[nm] = fo
     # the arm table
-    m = None
-    for n in ix.nodes:
-        if n.get("k") == "match" and n.get("src") == "match" and len(n["arms"]) > 20:
-            m = n
+    m = loop_match_of(ix, loop)
     if m is None:
         ctx.violation("R05.1", "serialize_expr:match", f["span"], "UNRECOGNISED: no variant match")
         return None
-    in_pc0 = any(a.get("k") == "if" and show(peel(a["cond"])).replace(" ", "") == "(pc==0)" and contains(a["then"], m) for a in ix.ancestors(m))
+    pcs = [(c_, pol) for c_, pol in norm.path_conditions(ix, m, upto=loop) if is_pc_test(c_)]
+    in_pc0 = len(pcs) == 1 and pcs[0][1] == (resolve(pcs[0][0])["op"] == "==") and resolve(pcs[0][0])["op"] in ("==", "!=") and (is_lit(resolve(pcs[0][0])["l"], 0) or is_lit(resolve(pcs[0][0])["r"], 0))
     ctx.inst("R05.1", "serialize_expr:operator-written-on-first-visit", in_pc0, m["sp"], "the operator must be written when the node is first visited (pc == 0)")
     table = {}
     for alt, arm in match_arms(m):
@@ -199,84 +235,174 @@ def extract_model(ctx, c, f, t0):
             continue
         vn = vname(vp[0])
         childbind = {}
+        attrbind = {}
         for kk, sp in vp[1].items():
             b = binding_of(sp)
             if b:
                 childbind[b[1]] = kk
+                attrbind[kk] = b[1]
         rows = []
         ax = Index(arm["body"])
         adefs = local_defs({"params": [], "body": arm["body"]})
         for s_ in fmtstr.macro_sites(c, arm["body"], ("write",)):
             pc = fmtstr.parse_call(s_["snippet"])
             conds = []
-            for a in ax.ancestors(s_["node"]):
-                if a.get("k") == "if":
-                    conds.append((cond_class(a["cond"], e_b, childbind, adefs, t0, vn), contains(a["then"], s_["node"])))
-            rows.append({"fmt": pc[2] if pc else None, "args": pc[3] if pc else [], "conds": conds, "sp": s_["node"]["sp"]})
+            for c_, pol in norm.path_conditions(ax, s_["node"]):
+                cls, sign = cond_class(c_, e_b, childbind, attrbind, adefs, t0, vn)
+                conds.append((cls, pol == sign))
+            fmt_ = pc[2] if pc else None
+            alts = [([], fmt_)]
+            if fmt_ is not None and fmtstr.shape(fmt_) == "{}":
+                # the operator text is passed as data (e.g. through a helper): enumerate the string values of the argument
+                an = fmtstr.arg_nodes(s_)
+                sv = strvals(an[0], 0) if an and an[0] is not None else None
+                if sv:
+                    alts = []
+                    for cs_, text in sv:
+                        extra = []
+                        for c_, pol in cs_:
+                            cls, sign = cond_class(c_, e_b, childbind, attrbind, adefs, t0, vn)
+                            extra.append((cls, pol == sign))
+                        alts.append((extra, text))
+            for extra, text in alts:
+                rows.append({"fmt": text, "args": pc[3] if pc else [], "conds": conds + extra, "sp": s_["node"]["sp"]})
         # arms that call serialize_type (ArrayConstant) -> as const
         table[vn] = {"rows": rows, "sp": arm["sp"]}
     # requirement pushed for children, re-push of the node
-    pushes = [n for n in ix.nodes if n.get("k") == "mcall" and n["name"] == "push" and peel(n["recv"]).get("k") == "local" and peel(n["recv"])["name"] == "todo"]
+    pushes = [n for n in ix.nodes if n.get("k") == "mcall" and n["name"] == "push" and is_local(n["recv"], todo_id) and contains(loop["body"], n)]
     child_req_ok = False
     self_req_ok = False
     for pu in pushes:
         t = peel(pu["args"][0])
         if t.get("k") != "tuple" or len(t["es"]) != 3:
             continue
-        third = peel(t["es"][2])
+        third = resolve(t["es"][2])
         first = peel(t["es"][0])
-        if first.get("k") == "local" and first["id"] == e_b[1]:
-            self_req_ok = third.get("k") == "local" and third["id"] == must_b[1]
+        if is_local(first, e_b[1]):
+            self_req_ok = is_local(third, must_b[1])
         else:
-            if third.get("k") == "local":
-                init = simple_let_init(defs, third["id"])
-                child_req_ok = init is not None and show(init) == "serialize::always_consumes_bit_vec(expr)" and peel(t["es"][1]).get("v") == 0
+            a0 = resolve(third["args"][0]) if third.get("k") == "call" and third.get("args") else {}
+            child_req_ok = third.get("k") == "call" and callee(third) == S + "always_consumes_bit_vec" and a0.get("k") == "index" and is_local(a0["i"], e_b[1]) and is_lit(t["es"][1], 0)
     ctx.inst("R05.1", "serialize_expr:child-requirement", child_req_ok, f["span"], "a child must be scheduled with must_be_bit_vec = always_consumes_bit_vec(parent) and position 0")
     ctx.inst("R05.1", "serialize_expr:self-requirement-kept", self_req_ok, f["span"], "re-scheduling a node must keep its own must_be_bit_vec requirement")
     # zero-extend of Bool continuation
-    zx = None
-    for n in ix.nodes:
-        if n.get("k") == "if" and "Expr::BVZeroExt" in show_pat(peel(n["cond"]).get("l", {}).get("pat", {"k": "pwild"})) if False else False:
-            pass
-    cont = [s_ for s_ in fmtstr.macro_sites(c, loop["body"], ("write",)) if "#b{}1" in (s_["snippet"] or "")]
+    cont = [(s_, pc) for s_, pc in parsed if pc and pc[2] and fmtstr.shape(pc[2]) == " #b{}1 #b{}0"]
     zx_ok = False
     if len(cont) == 1:
-        pc = fmtstr.parse_call(cont[0]["snippet"])
-        anc = [a for a in ix.ancestors(cont[0]["node"]) if a.get("k") == "if"]
-        cs = " ".join(show(a["cond"]) for a in anc)
-        rep = [d for i, d in defs.items() if d[0] == "let" and d[2].get("name") == "zeros"]
-        zx_ok = pc[2] == " #b{}1 #b{}0" and pc[3] == ["zeros", "zeros"] and "BVZeroExt" in "".join(show_pat(x["pat"]) for a in anc for x in walk(a["cond"]) if x.get("k") == "letexpr") and "is_bool()" in cs \
-            and len(rep) == 1 and '"0".repeat' in show(rep[0][1]["init"]) and "by" in show(rep[0][1]["init"])
-    ctx.inst("R05.1", "serialize_expr:zext-of-bool-branches", zx_ok, cont[0]["node"]["sp"] if cont else f["span"],
+        s_, pc = cont[0]
+        an = fmtstr.arg_nodes(s_)
+        conds = norm.path_conditions(ix, s_["node"], upto=loop)
+        zpat = [c_ for c_, pol in conds if c_.get("k") == "letexpr" and pol and "BVZeroExt" in show_pat(c_["pat"])]
+        zx_ok = len(an) == 2 and all(a is not None for a in an) and local_id(an[0]) is not None and local_id(an[0]) == local_id(an[1]) and len(zpat) == 1
+        if zx_ok:
+            vpz = variant_pat(zpat[0]["pat"])
+            zb = {kk: binding_of(sp)[1] for kk, sp in (vpz[1].items() if vpz else []) if binding_of(sp)}
+            init = resolve(an[0])
+            ib, ims = chain(init)
+            # "0".repeat(by as usize)
+            rep_ok = [m_[0] for m_ in ims] == ["repeat"] and peel(ib).get("k") == "lit" and peel(ib).get("v") == "0"
+            cnt = peel(ims[0][1][0]) if rep_ok else {}
+            while cnt.get("k") == "cast":
+                cnt = peel(cnt["e"])
+            isb = [c_ for c_, pol in conds if pol and c_.get("k") == "mcall" and c_["name"] == "is_bool" and chain(c_)[0].get("k") == "local" and chain(c_)[0]["id"] == zb.get("e")]
+            zx_ok = rep_ok and "by" in zb and is_local(cnt, zb["by"]) and len(isb) == 1
+    ctx.inst("R05.1", "serialize_expr:zext-of-bool-branches", zx_ok, cont[0][0]["node"]["sp"] if cont else f["span"],
              "zero extension of a Bool must be closed with the two constants ` #b0..01 #b0..00` of width by+1 (by zeros followed by 1 / 0)")
     return {"table": table, "consumes": consumes, "produces": produces, "flags": flags, "wraps": wraps}
 
 
-def cond_class(cnd, e_b, childbind, defs, t0, vn):
-    """classify a condition inside an arm: 'node1' (the node / a same-width child is 1-bit), 'child1' (the operand is 1-bit), 'full' (full-range slice), 'lit:*', else text"""
-    s_ = show(peel(cnd)).replace(" ", "")
-    c = peel(cnd)
+def loop_match_of(ix, loop):
+    for n in ix.nodes:
+        if n.get("k") == "match" and n.get("src") == "match" and len(n["arms"]) > 20 and contains(loop["body"], n):
+            return n
+    return None
+
+
+def strvals(e, depth):
+    """string-literal values an expression can take: [([(condition, polarity)..], text)] or None"""
+    if depth > 6 or e is None:
+        return None
+    e = resolve(e)
+    e = norm.tail_value(e)
+    if e.get("k") == "lit" and isinstance(e.get("v"), str):
+        return [([], e["v"])]
+    if e.get("k") == "if" and "else" in e:
+        a, b = strvals(e["then"], depth + 1), strvals(e["else"], depth + 1)
+        if a is None or b is None:
+            return None
+        return [([(e["cond"], True)] + cs, t) for cs, t in a] + [([(e["cond"], False)] + cs, t) for cs, t in b]
+    return None
+
+
+def is_lit(n, v):
+    n = peel(n)
+    return n.get("k") == "lit" and n.get("v") == v
+
+
+def cond_class(cnd, e_b, childbind, attrbind, defs, t0, vn):
+    """classify a condition inside an arm as (class, sign): class is 'node1' (the node / a same-width child is 1-bit), 'child1' (the operand is 1-bit),
+    'full' (full-range slice), 'lit:wide', 'lit:true', else '?text'; sign False means the condition is the negation of the class"""
+    c = resolve(cnd)
+    sign = True
+    while c.get("k") == "unary" and c["op"] == "!":
+        sign, c = not sign, resolve(c["e"])
     b, ms = chain(c)
     names = [m[0] for m in ms]
-    if names == ["get_type", "is_bool"] and b.get("k") == "local":
-        if b["id"] == e_b[1]:
+
+    def child_class(i):
+        if i == e_b[1] or canon(i) == canon(e_b[1]):
             return "node1"
-        if b["id"] in childbind:
-            return "child1" if vn in ("BVZeroExt", "BVSignExt", "BVSlice", "BVConcat") else "node1"
-    if c.get("k") == "binary" and c["op"] == "==" and peel(c["r"]).get("v") == 1 and peel(c["l"]).get("k") == "local":
-        init = simple_let_init(defs, peel(c["l"])["id"])
-        if init is not None:
-            ib, ims = chain(init)
-            if ib.get("k") == "local" and ib["id"] in childbind and [m[0] for m in ims][:1] == ["get_bv_type"]:
-                return "child1"
-    flat = s_.replace("(", "").replace(")", "")
-    if "lo==0" in flat and "width-1==*hi" in flat and "&&" in flat:
-        return "full"
-    if s_.startswith("(value.width()>1)"):
-        return "lit:wide"
-    if s_ == "value.is_true()":
-        return "lit:true"
-    return "?" + s_
+        for cid in childbind:
+            if canon(cid) == canon(i):
+                return "child1" if vn in ("BVZeroExt", "BVSignExt", "BVSlice", "BVConcat") else "node1"
+        return None
+    if names == ["get_type", "is_bool"] and b.get("k") == "local":
+        cl = child_class(b["id"])
+        if cl:
+            return cl, sign
+
+    def width_of_child(x):
+        x = resolve(x)
+        xb, xms = chain(x)
+        if xb.get("k") == "local" and [m[0] for m in xms][:1] == ["get_bv_type"] and child_class(xb["id"]):
+            return child_class(xb["id"])
+        return None
+    if c.get("k") == "binary" and c["op"] in ("==", "!="):
+        for l, r in ((c["l"], c["r"]), (c["r"], c["l"])):
+            if is_lit(r, 1) and width_of_child(l):
+                return width_of_child(l), sign == (c["op"] == "==")
+            rr = peel(r)
+            if rr.get("k") == "ctor" and callee(rr).endswith("Option::Some") and rr.get("args") and is_lit(rr["args"][0], 1) and width_of_child(l):
+                return width_of_child(l), sign == (c["op"] == "==")
+    # full-range slice: lo == 0 && hi == width - 1
+    cj = conjuncts(c)
+    if vn == "BVSlice" and len(cj) == 2:
+        def eq_parts(x):
+            return (x["l"], x["r"]) if x.get("k") == "binary" and x["op"] == "==" else None
+        got = set()
+        for x in cj:
+            pr = eq_parts(x)
+            if not pr:
+                continue
+            for l, r in (pr, pr[::-1]):
+                if is_local(l, attrbind.get("lo")) and is_lit(r, 0):
+                    got.add("lo")
+                rr = resolve(r)
+                if is_local(l, attrbind.get("hi")) and rr.get("k") == "binary" and rr["op"] == "-" and is_lit(rr["r"], 1) and peel(rr["l"]).get("k") == "local":
+                    got.add("hi")
+        if got == {"lo", "hi"}:
+            return "full", sign
+    # literal forms
+    if c.get("k") == "binary" and c["op"] in (">", "<=", ">=", "<", "==", "!="):
+        lb, lms = chain(c["l"])
+        if [m[0] for m in lms] == ["width"] and peel(c["r"]).get("k") == "lit":
+            v = peel(c["r"])["v"]
+            wide = {(">", 1): True, ("<=", 1): False, (">=", 2): True, ("<", 2): False, ("==", 1): False, ("!=", 1): True}.get((c["op"], v))
+            if wide is not None:
+                return "lit:wide", sign == wide
+    if c.get("k") == "mcall" and c["name"] in ("is_true", "is_false") and not c["args"]:
+        return "lit:true", sign == (c["name"] == "is_true")
+    return "?" + show(c).replace(" ", ""), sign
 
 
 def choose(rows, facts_):
@@ -394,9 +520,9 @@ def evaluate(ctx, model, t0, t1):
     rows = table.get("BVLiteral", {}).get("rows", [])
     lit = {}
     for r in rows:
-        lit[tuple(r["conds"])] = r["fmt"]
-    okl = lit.get((("lit:wide", True),)) == "#b{}" and lit.get((("lit:true", True), ("lit:wide", False))) == "true" or lit.get((("lit:wide", False), ("lit:true", True))) == "true"
-    fmts = sorted(r["fmt"] for r in rows)
+        lit[tuple(sorted(r["conds"]))] = fmtstr.shape(r["fmt"])
+    okl = lit.get((("lit:wide", True),)) == "#b{}" and lit.get((("lit:true", True), ("lit:wide", False))) == "true"
+    fmts = sorted(fmtstr.shape(r["fmt"]) for r in rows)
     ctx.inst("R05.1", "literal-forms", fmts == ["#b{}", "false", "true"] and bool(okl), table.get("BVLiteral", {}).get("sp"), "literals must be written as #b<bits> when wider than 1 bit and as true/false otherwise: %s" % [(r["conds"], r["fmt"]) for r in rows])
     if ctx.tier == "thorough":
         two_level(ctx, model, t0, cases)
